@@ -86,6 +86,9 @@ pub enum GenerateError {
     /// \[WaveSize\] not supported
     UnsupportedWaveSize,
 
+    /// Bind group index is larger than the number of argument buffers we support
+    UnsupportedBindGroupIndex,
+
     /// Cast not supported
     UnsupportedCast,
 
